@@ -243,6 +243,7 @@ extern "C" int engineexport_initialize_grid (
         {
         mesh_x[i] = static_cast<double>(std::poisson_distribution<int>(mesh_state[i])(rng));
         }
+      mesh_x = SpeciesFirstToMeshFirstArray(mesh_x, n_species, n_meshes);
       }
     else if(CompareStr(init_state_processing, "floor"))
       {
@@ -374,6 +375,7 @@ extern "C" int engineexport_initialize_graph (
         {
         mesh_x[i] = static_cast<double>(std::poisson_distribution<int>(mesh_state[i])(rng));
         }
+      mesh_x = SpeciesFirstToMeshFirstArray(mesh_x, n_species, n_meshes);
       }
     else if(CompareStr(init_state_processing, "floor"))
       {
